@@ -3,6 +3,7 @@
 package c16objects
 
 import (
+	"encoding/binary"
 	"encoding/json"
 	"fmt"
 	"io"
@@ -30,12 +31,15 @@ func TestMain(m *testing.M) {
 
 // Op is one step.
 type Op struct {
-	Kind   string `json:"kind"`   // add | remove | terminate | call | rawcall | subscribe | removebad | race
+	Kind   string `json:"kind"`   // add | remove | terminate | call | rawcall | subscribe | removebad | race | busyremove
 	Target int    `json:"target"` // index (modulo) into the objects added so far
 }
 
 type Case struct {
 	Ops []Op `json:"ops"`
+	// MainEnd: how the service's main object (id 1, the one given to
+	// NewService) ends after the script: "" (it stays), "remove", "terminate".
+	MainEnd string `json:"main_end,omitempty"`
 }
 
 func genCase(t *rapid.T) Case {
@@ -43,10 +47,11 @@ func genCase(t *rapid.T) Case {
 	c := Case{Ops: []Op{{Kind: "add"}, {Kind: "add"}}}
 	for i := 0; i < n; i++ {
 		c.Ops = append(c.Ops, Op{
-			Kind:   rapid.SampledFrom([]string{"add", "add", "remove", "remove", "terminate", "call", "call", "call", "rawcall", "rawcall", "subscribe", "removebad", "race", "race"}).Draw(t, "kind"),
+			Kind:   rapid.SampledFrom([]string{"add", "add", "remove", "remove", "terminate", "call", "call", "call", "rawcall", "rawcall", "subscribe", "removebad", "race", "race", "busyremove"}).Draw(t, "kind"),
 			Target: rapid.IntRange(0, 12).Draw(t, "target"),
 		})
 	}
+	c.MainEnd = rapid.SampledFrom([]string{"", "", "remove", "terminate"}).Draw(t, "mainend")
 	return c
 }
 
@@ -88,7 +93,6 @@ func checkCase(c Case) error {
 	if err != nil {
 		return vt.Violationf("C16:setup", "service: %v", err)
 	}
-	_ = mainProbe
 	sess, err := session.NewAuthSession(env.Addr, "u", "t")
 	if err != nil {
 		return vt.Violationf("C16:setup", "session: %v", err)
@@ -285,6 +289,51 @@ func checkCase(c Case) error {
 				return vt.Violationf("C16:subscribe-error", "step %d: subscribe to live object %d: %v", i, o.id, err)
 			}
 			o.subs = append(o.subs, ch)
+		case "busyremove":
+			if o == nil || !o.live {
+				continue
+			}
+			// the object is busy with a slow call, its own terminate request is
+			// queued behind it, and three other connections keep calling it: some
+			// of their calls wait for room in its mailbox when it goes away.
+			// Every call gets exactly one answer, the hook runs once, nobody dies.
+			type sent struct {
+				conn *netkit.RawClient
+				from int
+				id   uint32
+			}
+			var calls []sent
+			send := func(conn *netkit.RawClient, action uint32, payload []byte) {
+				id := conn.NextID()
+				calls = append(calls, sent{conn, len(conn.Frames()), id})
+				conn.Send(netkit.Frame{Type: netkit.Call, ID: id, Service: svc.ServiceID(), Object: o.id, Action: action, Payload: payload})
+			}
+			var extra []*netkit.RawClient
+			for k := 0; k < 3; k++ {
+				x, err := netkit.Dial(env.Addr)
+				if err != nil || !x.Authenticate("u", "t", bound) {
+					return vt.Violationf("C16:setup", "raw client: %v", err)
+				}
+				defer x.Close()
+				extra = append(extra, x)
+			}
+			send(raw, 100, netkit.StringPayload("busy~4000"))
+			send(raw, 3, binary.LittleEndian.AppendUint32(nil, o.id))
+			for k := 0; k < 6; k++ {
+				for xi, x := range extra {
+					send(x, 100, netkit.StringPayload(fmt.Sprintf("late%d-%d", xi, k)))
+				}
+			}
+			for _, cl := range calls {
+				if _, _, ok := cl.conn.WaitFrame(cl.from, func(f netkit.Frame) bool { return f.ID == cl.id && (f.Type == netkit.Reply || f.Type == netkit.Error) }, bound); !ok {
+					return vt.Violationf("C16:no-answer:removal-under-load", "step %d: a call (id %d) to object %d, terminated while busy with calls queued, got no answer within %v", i, cl.id, o.id, bound)
+				}
+			}
+			o.live = false
+			if err := afterRemoval(o, "terminate() while busy"); err != nil {
+				return err
+			}
+			vt.Label("busyremove-step")
 		case "race":
 			if o == nil || !o.live {
 				continue
@@ -368,6 +417,44 @@ func checkCase(c Case) error {
 		} else if n := atomic.LoadInt32(&o.probe.Terminated); n != 1 {
 			return vt.Violationf("C16:terminate-count", "removed object %d: termination hook ran %d times", o.id, n)
 		}
+	}
+	// the main object is an object like the others: it can be removed too
+	if c.MainEnd != "" {
+		main := &obj{id: 1, name: "Svc", probe: mainProbe, proxy: mainProxy, generic: bus.MakeObject(mainProxyRaw), live: true}
+		if c.MainEnd == "remove" {
+			if err := svc.Remove(1); err != nil {
+				return vt.Violationf("C16:remove-error", "Remove(1) of the live main object failed: %v", err)
+			}
+		} else {
+			done := make(chan error, 1)
+			go func() { done <- main.generic.Terminate(1) }()
+			select {
+			case err := <-done:
+				if err != nil {
+					return vt.Violationf("C16:terminate-error", "terminate of the live main object failed: %v", err)
+				}
+			case <-time.After(bound):
+				return vt.Violationf("C16:terminate-hangs", "terminate(1) did not return within %v", bound)
+			}
+		}
+		main.live = false
+		if err := afterRemoval(main, c.MainEnd+" of the main object"); err != nil {
+			return err
+		}
+		for k := 0; k < 2; k++ {
+			if err := call(main, k == 1, len(c.Ops)+k); err != nil {
+				return err
+			}
+		}
+		// the others are not affected
+		for i, o := range objs {
+			if o.live {
+				if err := call(o, i%2 == 1, len(c.Ops)); err != nil {
+					return err
+				}
+			}
+		}
+		vt.Label("main-object-" + c.MainEnd)
 	}
 	nontrivial := callsAfterRemoval > 0 && liveAtThatTime > 0
 	labels := []string{fmt.Sprintf("objects=%d", len(objs))}
